@@ -43,9 +43,14 @@ Phases == <<"metadata", "hosted", "subscribe", "probe", "notification", "renew",
 NPhases == Len(Phases)
 PhaseSet == {Phases[i] : i \in 1..NPhases}
 
+\* psrv = "mismatch": the application handed a TLS provider a shared http server that does NOT do TLS (a misconfiguration;
+\* what the provider advertises is still bound by the property).  Enumerated for the enforcing consumer only: its first
+\* connect fails, so the trace consists of the announcement, the failed connect and the retry.
 Configs == [kind : {"cfg"}, ptls : {"off", "on"}, ctls : {"none", "optional", "enforced"},
             psrv : {"shared", "own"}, csrv : {"shared", "own"}, alt : {"none", "set"},
             peer : {"yes", "no"}, mgr : Mgrs]
+           \cup [kind : {"cfg"}, ptls : {"on"}, ctls : {"enforced"}, psrv : {"mismatch"}, csrv : {"shared", "own"},
+                 alt : {"none", "set"}, peer : {"yes"}, mgr : Mgrs]
 
 CertCases == [kind : {"cert"}, entry : {"mk_ssl_contexts", "from_folder"}, ca : {"absent", "given"},
               cyphers : {"absent", "given"}]
@@ -58,7 +63,7 @@ AnswersPlain(hasTls, c) == ~hasTls \/ c.peer = "no"
 \* exactly one kind of connection is answered by a server
 ASSUME \A h \in BOOLEAN, p \in {"yes", "no"} : AnswersTls(h, [peer |-> p]) # AnswersPlain(h, [peer |-> p])
 
-ProviderServerTls(c) == c.ptls = "on"
+ProviderServerTls(c) == c.ptls = "on" /\ c.psrv # "mismatch"
 \* the consumer's event sink: a shared server matches the consumer's configuration, an own server is built
 \* when the connection mode is known
 SinkTls(c, m) == IF c.csrv = "shared" THEN c.ctls # "none" ELSE m = "tls"
